@@ -221,6 +221,13 @@ def configs(tier):
                     if tier == "quick" and n == 3 and k == 2 and cap == 3:
                         continue
                     full("H2", (perm, k, cap))
+    if tier == "quick":
+        # 4 explicitly numbered messages, one subscriber: small state spaces, but the only place where a batch read
+        # (sender ahead of the reader) is followed by an out-of-order pair
+        for perm in itertools.permutations(range(4)):
+            for cap in (2, 3):
+                if admissible(perm, cap):
+                    full("H2", (perm, 1, cap))
     # H3 futures
     for n, k, cap, w in ((1, 1, 1, 1), (1, 2, 1, 1), (2, 1, 1, 1), (2, 1, 2, 2), (2, 2, 1, 1)) + (((2, 2, 2, 2), (3, 1, 2, 2), (3, 2, 3, 1)) if tier == "thorough" else ()):
         full("H3", (n, k, cap, w))
